@@ -431,6 +431,30 @@ func (s *script) read(in []byte) {
 		if int(n) != len(in)-rd.Len() {
 			s.o.Fail("C11.wire.read.count", "ReadFrom(%s) n=%d consumed=%d", clip(hx.Hex(in)), n, len(in)-rd.Len())
 		}
+		// the storage now holds exactly the longs that were on the wire (independent parse of the
+		// VarInt count and the big-endian longs), whatever it held before
+		cnt, sh, k := uint64(0), uint(0), 0
+		for k < len(in) {
+			b := in[k]
+			k++
+			cnt |= uint64(b&0x7f) << sh
+			sh += 7
+			if b&0x80 == 0 {
+				break
+			}
+		}
+		raw := s.bs.Raw()
+		okRaw := uint64(len(raw)) == cnt && k+8*len(raw) <= len(in)
+		for j := 0; okRaw && j < len(raw); j++ {
+			var v uint64
+			for t := 0; t < 8; t++ {
+				v = v<<8 | uint64(in[k+8*j+t])
+			}
+			okRaw = raw[j] == v
+		}
+		if !okRaw {
+			s.o.Fail("C11.wire.read.raw", "ReadFrom(%s) into a used storage left Raw()=%s (wire declares %d longs)", clip(hx.Hex(in)), clip(rawStr(raw)), cnt)
+		}
 	}
 }
 
